@@ -434,8 +434,13 @@ func genOps(r *rng.R, i int, cfg *cfgSpec, nvals int) (name string, ops []opSpec
 	case 0: // class 1: no read call between the operations; then one read API first
 		name = "noread"
 		cfg.Short = (i/7)%2 == 0
-		ops = append(ops, opSpec{Kind: "blind"},
-			opSpec{Kind: "fund", V2: true, Amount: "p1-1"}, opSpec{Kind: "broadcast", Ref: -1, ViaWallet: r.Bool()},
+		ops = append(ops, opSpec{Kind: "blind"})
+		if cfg.Short {
+			// two requests are held, their reservations run out unobserved, then everything is asked for
+			ops = append(ops, opSpec{Kind: "fund", V2: r.Bool(), Amount: "p1"}, opSpec{Kind: "fund", V2: false, Amount: "p2"}, opSpec{Kind: "sleep"},
+				opSpec{Kind: "fund", V2: r.Bool(), Amount: "bal", ThenRelease: true})
+		}
+		ops = append(ops, opSpec{Kind: "fund", V2: true, Amount: "p1-1"}, opSpec{Kind: "broadcast", Ref: -1, ViaWallet: r.Bool()},
 			opSpec{Kind: "fund", V2: false, Amount: "p2"})
 		if r.Bool() {
 			ops = append(ops, opSpec{Kind: "release", Ref: -1})
